@@ -13,6 +13,7 @@ class Walk:
         self.revisits = 0
         self.leaves = []            # dicts: decisions, ident, feasible, final, inst
         self.order_conflicts = []   # (decisions, ident_a, ident_b)
+        self.infeasible_leftover_differs = 0
         self.exceptions = []        # (decisions, sig, msg)
         self.truncated = False
         self.infeasible_states = 0
@@ -83,6 +84,11 @@ def walk(spec, max_states=3000, record_offered=False, expand_infeasible=False):
             # still pending in the other): not a violation by itself - the statement speaks about END results - but both
             # variants are explored; final states with equal decisions must be equal
             nxt_pending = len(sid[3]) > 0 or any(len(o[3]) > 0 for o in visited[decisions])
+            both_infeasible = not sid[2] and all(not o[2] for o in visited[decisions])
+            if both_infeasible:
+                # what is left of an infeasible graph is not an architecture: only the verdict must agree
+                w.infeasible_leftover_differs += 1
+                continue
             if not nxt_pending:
                 w.order_conflicts.append((sorted(decisions), visited[decisions][0], sid))
                 continue
